@@ -45,9 +45,9 @@ Proof.
   rewrite (G _ _ _ F). reflexivity.
 Qed.
 
-(* choosing the snapshot when the newest marker m is valid and has its file *)
+(* choosing the snapshot when the marker m is valid, has its file, and no snap file with a valid marker is newer *)
 Lemma choose_newest : forall ss sf m,
-  In m (markers (all_recs ss)) -> (forall i, In i (markers (all_recs ss)) -> i <= m) ->
+  In m (markers (all_recs ss)) -> (forall f, In f sf -> In f (valid_markers ss) -> f <= m) ->
   m <= last_commit (all_recs ss) -> ~ In 0 sf -> (0 < m -> In m sf) ->
   choose_snapshot ss sf = if 0 <? m then Some m else None.
 Proof.
@@ -57,32 +57,77 @@ Proof.
   destruct (0 <? m) eqn:Q.
   - apply maxl_is_max.
     + apply filter_In. split; [apply Hf; lia | apply memN_In; exact Hval].
-    + intros y Hy. apply filter_In in Hy. destruct Hy as [_ Hy]. apply memN_In in Hy.
-      apply valid_markers_sub in Hy. auto.
+    + intros y Hy. apply filter_In in Hy. destruct Hy as [Hy1 Hy]. apply memN_In in Hy. auto.
   - rewrite filter_nil_iff; [reflexivity|].
     intros x Hx. destruct (memN x (valid_markers ss)) eqn:Mx; auto.
-    apply memN_In in Mx. apply valid_markers_sub in Mx. apply Hmax in Mx.
+    apply memN_In in Mx. pose proof (Hmax x Hx Mx).
     assert (x = 0) by lia. subst. contradiction.
 Qed.
 
-(* the restart of a well-shaped world (only the newest marker needs to be valid) *)
-Lemma recover_chain2 : forall ss lo hi sf cks m, local_recs (all_recs ss) ->
+(* the restart of a well-shaped world: m is the newest marker that counts (a local one, or an incoming one that was
+   made valid), it is valid, no validated incoming marker and no snap file with a valid marker is above it *)
+Lemma recover_chain2 : forall ss lo hi sf cks m,
+  (forall h m0, In (h, m0) (jumps (all_recs ss)) -> m0 <= m /\ h < m0) ->
   seg_chain lo ss hi -> lo = lo_of ss ->
-  In m (markers (all_recs ss)) -> (forall i, In i (markers (all_recs ss)) -> i <= m) ->
+  In m (pmarkers (all_recs ss)) -> (forall f, In f sf -> In f (valid_markers ss) -> f <= m) ->
   m <= last_commit (all_recs ss) ->
   sfirst (hd (mkSeg 0 []) ss) <= m ->
   ~ In 0 sf ->
   (0 < m -> In m sf /\ lookup m cks = Some (range 0 m)) ->
   recover ss sf cks = Ok (range 0 hi).
 Proof.
-  intros ss lo hi sf cks m HL C Hlo Hm Hmax Hvalid Hfirst H0 Hfile.
+  intros ss lo hi sf cks m HJ C Hlo Hm Hmax Hvalid Hfirst H0 Hfile.
   assert (Llo : lo <= m). { subst lo. unfold lo_of. lia. }
   assert (Lmh : m <= hi) by (eapply seg_chain_markers; eauto).
-  unfold recover. rewrite (choose_newest ss sf m Hm Hmax Hvalid H0 (fun h => proj1 (Hfile h))).
-  destruct (read_all_chain _ _ _ m HL C Llo Hfirst Hm) as [cm R].
+  unfold recover. rewrite (choose_newest ss sf m (pmarkers_sub _ _ Hm) Hmax Hvalid H0 (fun h => proj1 (Hfile h))).
+  destruct (read_all_chain _ _ _ m HJ C Llo Hfirst Hm) as [cm R].
   destruct (0 <? m) eqn:Q.
   - destruct (Hfile ltac:(lia)) as [_ Hck]. rewrite Hck, R. f_equal. symmetry. apply range_app; lia.
   - assert (m = 0) by lia. subst m. rewrite R. reflexivity.
+Qed.
+
+Lemma filter_all_true : forall (f : N -> bool) l, (forall x, In x l -> f x = true) -> filter f l = l.
+Proof. induction l; simpl; intros; auto. rewrite H by (left; auto). f_equal. apply IHl. intros. apply H. right; auto. Qed.
+
+Lemma filter_le_range : forall a b c, a <= c -> c <= b -> filter (fun e => e <=? c) (range a b) = range a c.
+Proof.
+  intros a b c L1 L2. rewrite (range_app a c b) by lia. rewrite filter_app.
+  assert (F1 : filter (fun e => e <=? c) (range a c) = range a c).
+  { apply filter_all_true. intros x Hx. apply range_In in Hx. lia. }
+  assert (F2 : filter (fun e => e <=? c) (range c b) = []).
+  { apply filter_nil_iff. intros x Hx. apply range_In in Hx. lia. }
+  rewrite F1, F2, app_nil_r. reflexivity.
+Qed.
+
+(* the same world as served by a replica that is restarted without its peers: the log up to the commit index *)
+Lemma recover_isolated_chain : forall ss lo hi sf cks m,
+  (forall h m0, In (h, m0) (jumps (all_recs ss)) -> m0 <= m /\ h < m0) ->
+  seg_chain lo ss hi -> lo = lo_of ss ->
+  In m (pmarkers (all_recs ss)) -> (forall f, In f sf -> In f (valid_markers ss) -> f <= m) ->
+  m <= last_commit (all_recs ss) ->
+  sfirst (hd (mkSeg 0 []) ss) <= m ->
+  ~ In 0 sf ->
+  (0 < m -> In m sf /\ lookup m cks = Some (range 0 m)) ->
+  exists k, recover_isolated ss sf cks = Ok (range 0 k) /\ m <= k <= hi.
+Proof.
+  intros ss lo hi sf cks m HJ C Hlo Hm Hmax Hvalid Hfirst H0 Hfile.
+  assert (Llo : lo <= m). { subst lo. unfold lo_of. lia. }
+  assert (Lmh : m <= hi) by (eapply seg_chain_markers; eauto).
+  unfold recover_isolated. rewrite (choose_newest ss sf m (pmarkers_sub _ _ Hm) Hmax Hvalid H0 (fun h => proj1 (Hfile h))).
+  destruct (read_all_chain _ _ _ m HJ C Llo Hfirst Hm) as [cm R].
+  set (k := if cm <=? m then m else if cm <=? hi then cm else hi).
+  assert (Hk : m <= k <= hi) by (unfold k; destruct (cm <=? m) eqn:Q1; [lia|]; destruct (cm <=? hi) eqn:Q2; lia).
+  exists k.
+  assert (Ef : filter (fun e => e <=? cm) (range m hi) = range m k).
+  { unfold k. destruct (cm <=? m) eqn:Q1.
+    - rewrite (range_nil m m) by lia.
+      apply filter_nil_iff. intros x Hx. apply range_In in Hx. lia.
+    - destruct (cm <=? hi) eqn:Q2.
+      + apply filter_le_range; lia.
+      + apply filter_all_true. intros x Hx. apply range_In in Hx. lia. }
+  destruct (0 <? m) eqn:Q.
+  - destruct (Hfile ltac:(lia)) as [_ Hck]. rewrite Hck, R, Ef. split; [|lia]. f_equal. symmetry. apply range_app; lia.
+  - assert (m = 0) by lia. subst m. rewrite R, Ef. split; [reflexivity | lia].
 Qed.
 
 (* a prefix of the records of a Save *)
